@@ -547,6 +547,8 @@ def eval_c17(item):
             out["problems"].append({"kind": "same-path", "a": list(seen[str(rel)]), "b": [l, f], "path": str(rel)})
         seen[str(rel)] = (l, f)
     r1 = {k: (str(Path(v).relative_to(jobpath)) if v is not None and Path(v).is_relative_to(jobpath) else str(v)) for k, v in paths.items()}
+    out["rel"] = {f"{k[0]}.{k[1]}": v for k, v in sorted(r1.items())}
+    out["job"] = str(Path(jobpath).relative_to(Path(jobpath).parent.parent))
     for how, (j2, p2) in zip(("same", "kw-reversed", "assign", "assign-reversed"), runs[1:]):
         r2 = {k: (str(Path(v).relative_to(j2)) if v is not None and Path(v).is_relative_to(j2) else str(v)) for k, v in p2.items()}
         if r1 != r2 or str(jobpath) != str(j2):
@@ -709,10 +711,14 @@ def eval_c12(item):
         robj = B.tasks[root] if root in B.tasks else B.objs[root]
         orig_id = Gr.ident(robj)
         root_init = submittable
-        if route in ("json", "json-instance"):
+        orig_nodes = _node_ids(robj)
+        if route in ("json", "json-instance", "json-keepid"):
             data = json.loads(robj.__xpm__.__json__())
             if route == "json":
                 loaded = ConfigInformation.fromParameters(data, as_instance=False, discard_id=True)
+            elif route == "json-keepid":
+                # the stored identifiers are kept by the loader (the default): they must be the content-determined ones
+                loaded = ConfigInformation.fromParameters(data, as_instance=False)
             else:
                 U.LOG.clear()
                 loaded = ConfigInformation.fromParameters(data, as_instance=True)
@@ -752,9 +758,59 @@ def eval_c12(item):
             new_id = Gr.ident(loaded)
             if new_id != orig_id:
                 out["problems"].append({"kind": "identifier-differs", "route": route, "before": orig_id, "after": new_id})
+            # full and raw identifiers of every node of the reloaded graph (whatever the loader cached), and of a
+            # configuration that embeds the reloaded root
+            new_nodes = _node_ids(loaded)
+            if sorted(new_nodes) != sorted(orig_nodes):
+                diff = sorted(set(orig_nodes) ^ set(new_nodes))[:4]
+                out["problems"].append({"kind": "identifier-differs", "route": route, "where": "nodes", "before": orig_id, "after": new_id, "diff": None, "nodes": diff})
+            emb = _embed(robj), _embed(loaded)
+            if emb[0] is not None and emb[0] != emb[1]:
+                out["problems"].append({"kind": "identifier-differs", "route": route, "where": "embedding", "before": emb[0], "after": emb[1]})
     except Exception as e:  # noqa
         out["problems"].append({"kind": "compare-raises", "route": route, "error": f"{type(e).__name__}: {e}", "tb": traceback.format_exc()[-1500:]})
     return out
+
+
+def _node_ids(root_obj):
+    """[(type id, full identifier, raw identifier)] of every configuration reachable through parameter values, pre-tasks
+    and init tasks (task outputs: the output object only)."""
+    from experimaestro.core.objects import Config
+    seen, todo, out = set(), [root_obj], []
+    while todo:
+        o = todo.pop()
+        if isinstance(o, (list, tuple)):
+            todo.extend(o)
+            continue
+        if isinstance(o, dict):
+            todo.extend(o.values())
+            continue
+        if not isinstance(o, Config) or id(o) in seen:
+            continue
+        seen.add(id(o))
+        x = o.__xpm__
+        out.append((str(o.__xpmtype__.identifier), x.identifier.all.hex(), x.raw_identifier.all.hex()))
+        todo.extend(x.values.values())
+        todo.extend(x.pre_tasks)
+        todo.extend(x.init_tasks)
+    return out
+
+
+def _embed(o):
+    """Identifier of a fresh configuration that takes `o` as a parameter (None when no universe class accepts it)."""
+    import universe.g as U
+    try:
+        if isinstance(o, U.Leaf):
+            return Gr.ident(U.Box(child=o, sa="emb"))
+        if isinstance(o, U.Box):
+            return Gr.ident(U.Ring(v=9, box=o))
+        if isinstance(o, U.Ring):
+            return Gr.ident(U.Ring(v=9, alt=o))
+        if isinstance(o, U.Holder):
+            return Gr.ident(U.Holder(inner=o))
+    except Exception as e:  # noqa
+        return f"raises {type(e).__name__}: {e}"
+    return None
 
 
 def _first_diff(a, b, path=""):
